@@ -268,6 +268,8 @@ def run(ctx):
         raise runner.BuildError("prctl(PR_SET_CHILD_SUBREAPER) failed")
     d = ctx.scratch
     wild = private_wild(ctx)
+    import resource
+    resource.setrlimit(resource.RLIMIT_CORE, (0, resource.getrlimit(resource.RLIMIT_CORE)[1]))
     for name, src in (("ok", ASM_OK), ("undef", ASM_UNDEF)):
         open(os.path.join(d, name + ".s"), "w").write(src)
         rc, out = runner.sh(["as", name + ".s", "-o", name + ".o"], cwd=d)
